@@ -1,6 +1,7 @@
 CONSTANT Thorough = FALSE
 CONSTANT Tier = "quick"
+CONSTANT Part = 0
 INIT PInit
 NEXT PNext
-INVARIANT EmitCase
+INVARIANT EmitLive
 CHECK_DEADLOCK FALSE
